@@ -400,7 +400,70 @@ def rule_l6(ctx):
     rep.floor('selecting stages', n, 1)
 
 
+def rule_l7(ctx):
+    """the eager operations evaluate the pipeline once: the dataset is iterated at most once per path
+    (a handler that falls back after a refused items() counts on its own)"""
+    rep = ctx.report
+    core = ctx.repo.module('core')
+    base = ctx.repo.dataset_base()
+    targets = [('core.from_dataset', core.functions.get('from_dataset'), None, 'examples')]
+    for m in ('sort', 'groupby', 'filter'):
+        mem = base.own(m)
+        if mem is not None:
+            targets.append(('core.Dataset.' + m, mem.node, base, 'self'))
+    n = 0
+    for qual, fn, cls, who in targets:
+        if fn is None:
+            raise AnalysisError('anchor vanished: %s' % qual)
+        n += 1
+
+        def touches(node):
+            c = 0
+            for x in ast.walk(node):
+                if isinstance(x, ast.Call):
+                    d = A.dotted(x.func) or ''
+                    args = [a.value if isinstance(a, ast.Starred) else a for a in x.args]
+                    if d in ('list', 'tuple', 'sorted', 'enumerate', 'iter', 'set', 'dict') and args:
+                        a0 = args[0]
+                        if A.is_name(a0, who) or (isinstance(a0, ast.Call) and isinstance(a0.func, ast.Attribute)
+                                                   and A.is_name(a0.func.value, who) and a0.func.attr in ('items', 'map', '__iter__')):
+                            c += 1
+                elif isinstance(x, ast.comprehension) and A.is_name(x.iter, who):
+                    c += 1
+                elif isinstance(x, ast.For) and A.is_name(x.iter, who):
+                    c += 1
+            return c
+        worst = 0
+        regions = []
+        tries = [t for t in A.walk_local(fn) if isinstance(t, ast.Try)]
+        if tries:
+            t = tries[0]
+            main = sum(touches(s) for s in t.body + t.orelse)
+            outside = sum(touches(s) for s in fn.body if s is not t and not any(s is x for x in ast.walk(t)))
+            regions.append(('try/else path', main + outside))
+            for h in t.handlers:
+                regions.append(('handler %s' % (A.short(h.type) if h.type is not None else ''), sum(touches(s) for s in h.body) + outside))
+        else:
+            # branches of one if/else are alternatives
+            def count(stmts):
+                tot = 0
+                for s in stmts:
+                    if isinstance(s, ast.If):
+                        tot += max(count(s.body), count(s.orelse)) + touches(s.test)
+                    else:
+                        tot += touches(s)
+                return tot
+            regions.append(('body', count(fn.body)))
+        worst = max(r[1] for r in regions)
+        rep.ob('L7', K.key(qual, None, 'input-evaluated-at-most-once'), worst <= 1, fn,
+               'iterations of the input per path: %s' % regions if worst <= 1 else
+               'the eager operation iterates its input %d times on one path (%s): every user function of the pipeline runs '
+               'more than once per example' % (worst, regions))
+    rep.floor('eager materialisers', n, 4)
+
+
 def run(ctx):
+    rule_l7(ctx)
     rule_l6(ctx)
     rule_l1(ctx)
     rule_l2(ctx)
